@@ -84,7 +84,9 @@ def write_inputs(d: str, seed: int, n: int) -> List[Tuple[str, str, str]]:
             st2 = model.DictObjectStore({obj, aas})
             with aasx.AASXWriter(pa) as w:
                 w.write_aas(aas.id, st2, aasx.DictSupplementaryFileContainer(), write_json=bool(i % 2))
-            out.append((pa, "aasx", "valid"))
+            # (data the checker cannot compare even with itself - NaN, order-irrelevant lists: the recorded finding - is no
+            # subject of the self-comparison clause)
+            out.append((pa, "aasx", "valid" if not has_unordered_list_or_nan(obj) else "valid:not-self-comparable"))
         # damaged variants
         raw = open(pj, "rb").read()
         k = rng.randrange(len(raw))
@@ -113,7 +115,7 @@ def write_inputs(d: str, seed: int, n: int) -> List[Tuple[str, str, str]]:
         out.append((pf, "aasx", "valid"))
     # valid ZIP containers whose OPC parts are damaged one by one (content types stream, relationships, payload)
     import zipfile
-    src_pkgs = [pth for pth, f, c in out if f == "aasx" and c == "valid"][:2]
+    src_pkgs = [pth for pth, f, c in out if f == "aasx" and c.startswith("valid")][:2]
     for pi, src in enumerate(src_pkgs):
         with zipfile.ZipFile(src) as z:
             members = [(zi, z.read(zi.filename)) for zi in z.infolist()]
@@ -747,7 +749,7 @@ def oracle(ctx: C.Ctx, cov: C.Coverage, n: Optional[int] = None, seed: Optional[
                 worst = max([rank[s] for _, s in r[1]] + [0])
                 if rank[r[2]] != worst:
                     add(C.Failing(f"tool:{fmt}:{which}:status-not-worst", f"overall {r[2]} but steps {r[1]}", case))
-                if cat == "valid" and r[2] != "SUCCESS":
+                if cat.startswith("valid") and r[2] != "SUCCESS":
                     add(C.Failing(f"tool:{fmt}:{which}:valid-file-fails", f"SDK-written {fmt} file does not pass check_{which}: {r[1]}", case))
             if cat == "valid" and fmt == "aasx":
                 # a file holds the same data as itself
